@@ -2,6 +2,8 @@ import Qryn.Proofs.Confine
 import Qryn.Read.Tables
 import Qryn.Gen.DateSites
 import Qryn.Proofs.LogQLPlan
+import Qryn.Proofs.ConfineMetric
+import Qryn.LogQL.PostMetric
 /-! # C13 — every read is confined to the requested time window and signal type
 
 `Confine.confined` is a structural predicate on statements (every base-table scan carries timestamp
@@ -101,4 +103,90 @@ namespace Qryn.C13
     zone, so `date_lower_covers`/`date_upper_covers` (stated in UTC days) apply for every zone offset. -/
 theorem date_bounds_zone_free :
     Qryn.Gen.dateSites.all (fun s => s.2) = true ∧ Qryn.Gen.fromDateOfEnd = [] := by decide
+end Qryn.C13
+
+/-! ## the LogQL metric planner (`planMetric`, tied byte for byte to `clickhouse_planner.Plan(script, true)` by C08's
+    text stream and by the `model-metric` stream of this property) -/
+namespace Qryn.C13
+open Qryn Qryn.Sql Qryn.LogQL Qryn.Confine
+
+/-- **all_scans_confined_metric.** Every statement the LogQL metric planner model produces — range aggregations
+    over the samples table or, in the shortcut, over the 15 s rollup; unwrap; vector aggregation by/without
+    (incl. its extra time_series scan); topk; comparisons; step fix; labels join — is confined to the planner
+    context's window and signal type: the samples scan by the exact bounds `[From, To)` (slack 0), the
+    metrics_15s scan by the two ends rounded to the 15 s storage grid (slack 15 s − 1 ns, `metricSlack`), every
+    index scan by the covering date bound and the type filter or by the fingerprints of such a scan.
+    For every query of the fragment, window, step, both table layouts. -/
+theorem all_scans_confined_metric (cfg : Cfg) (c : MCtx) (h : MetricCfg cfg c) (q : MetricQuery) :
+    confined cfg (winMetric c q) (planMetric c q) = true :=
+  planMetric_confined cfg c h q
+
+/-- **metric_slack_bounded.** The slack `all_scans_confined_metric` needs is 0 unless the metrics_15s shortcut is
+    taken; then it is below 15 s, which is at most the range duration (the shortcut is only taken for ranges
+    that are whole multiples of 15 s). -/
+theorem metric_slack_bounded (q : MetricQuery) :
+    0 ≤ metricSlack q ∧ metricSlack q < 15000000000 ∧
+    (takesShortcut q = false → metricSlack q = 0) ∧
+    (takesShortcut q = true → metricSlack q < q.rangeAgg.durNs ∧ q.rangeAgg.durNs % 15000000000 = 0) := by
+  unfold metricSlack
+  refine ⟨by split <;> decide, by split <;> decide, fun h => by simp [h], fun h => ?_⟩
+  simp only [h, if_true]
+  simp only [takesShortcut] at h
+  cases hk : q.rangeAgg.kind with
+  | lra fn =>
+    simp only [hk, Bool.and_eq_true, beq_iff_eq, slot15] at h
+    obtain ⟨⟨⟨_, h1⟩, h2⟩, _⟩ := h
+    have h1 := of_decide_eq_true h1
+    exact ⟨by omega, h2⟩
+  | unwrap fn l => simp [hk] at h
+
+/-- **shortcut_bounds_on_grid.** The literal bounds of the metrics_15s scan are the ends of the window rounded
+    with Go's truncating division: each differs from the end it is computed from by less than 15 s, and for
+    times after 1970 the lower one is the start of the 15 s slot holding `From` (never above it) and the upper
+    one is never above `To`. -/
+theorem shortcut_bounds_on_grid (t : Int) :
+    t - 15000000000 < Int.tdiv t slot15 * slot15 ∧ Int.tdiv t slot15 * slot15 < t + 15000000000 ∧
+    (0 ≤ t → Int.tdiv t slot15 * slot15 ≤ t) := by
+  rw [slot15_val]; exact tdiv_grid t 15000000000 (by decide)
+
+/-- **metric_window_widening.** The window `FixPeriodPlanner` hands to the SQL planners for a range of `d` ns
+    (`fixWindow`, C08) widens the requested `[start, end)` to the enclosing range buckets and not further:
+    the new start is the start of the bucket holding `start` (less than `d` before it), the new end is the end
+    of the bucket holding `end` (at most `d` after it). Times after 1970. -/
+theorem metric_window_widening (start end_ d : Int) (hd : 0 < d) (hs : 0 ≤ start) (he : 0 ≤ end_) :
+    start - d < (fixWindow start end_ d).1 ∧ (fixWindow start end_ d).1 ≤ start ∧
+    end_ < (fixWindow start end_ d).2 ∧ (fixWindow start end_ d).2 ≤ end_ + d := by
+  obtain ⟨a1, _, a3⟩ := tdiv_grid start d hd
+  obtain ⟨b1, _, b3⟩ := tdiv_grid end_ d hd
+  have := a3 hs
+  have := b3 he
+  simp only [fixWindow, hd, if_true]
+  refine ⟨a1, by omega, by omega, by omega⟩
+
+/-- **shortcut_adds_no_widening.** On a window produced by `fixWindow` for a range that is a whole multiple of
+    15 s (the only ranges the shortcut is taken for) the 15 s rounding of the metrics_15s scan changes nothing:
+    its bounds are exactly the bucket-aligned window. So for a range query the rows read lie in the requested
+    window widened to the enclosing range buckets, whichever table serves it. -/
+theorem shortcut_adds_no_widening (start end_ : Int) (m : Int) :
+    let d := m * 15000000000
+    Int.tdiv (Int.tdiv start d * d) slot15 * slot15 = Int.tdiv start d * d ∧
+    Int.tdiv (Int.tdiv end_ d * d + d) slot15 * slot15 = Int.tdiv end_ d * d + d := by
+  intro d
+  rw [slot15_val]
+  have e1 : Int.tdiv start d * d = (Int.tdiv start d * m) * 15000000000 := by
+    show Int.tdiv start d * (m * 15000000000) = _
+    rw [Int.mul_assoc]
+  have e2 : Int.tdiv end_ d * d + d = ((Int.tdiv end_ d + 1) * m) * 15000000000 := by
+    show Int.tdiv end_ d * (m * 15000000000) + m * 15000000000 = _
+    rw [Int.add_mul, Int.one_mul, Int.add_mul, Int.mul_assoc]
+  rw [e1, e2, Int.mul_tdiv_cancel _ (by decide), Int.mul_tdiv_cancel _ (by decide)]
+  exact ⟨rfl, rfl⟩
+
+-- non-vacuity: the hypotheses of all_scans_confined_metric are satisfiable by the real table names
+example : MetricCfg ⟨fun t => if t = "samples_v3" ∨ t = "metrics_15s" then .data else if t = "time_series" ∨ t = "time_series_gin" then .index else .other, fun _ => true, fun _ => false⟩
+    ⟨⟨100, 200, 10, false, 1, false, "time_series_gin", "samples_v3", "time_series", "time_series"⟩, 5, "metrics_15s"⟩ := by
+  constructor
+  · constructor <;> decide
+  · decide
+
 end Qryn.C13
